@@ -1,10 +1,34 @@
-(* Properties_C13.v — obligations of property C13.  Contains only theorem statements closed by
-   `exact <lemma>` and Print Assumptions. *)
-Require Import ObsRun.
+(* Properties_C13.v — obligations of property C13 (reset forgets all history and keeps all
+   settings). *)
+Require Import ObsRun Lemmas_Step.
 Local Open Scope Z_scope.
 
-(* non-vacuity: the observer of C13 is evaluated (and holds) along a run of the model that
-   touches every group kind *)
+(* For every reachable state s: rdsparser_clear yields EXACTLY the freshly initialised state with
+   the extended-check flag, thresholds, progressive flags, callbacks and user data of s.  The
+   model state is the whole of struct librdsparser, so nothing else can carry history. *)
+Theorem C13_clear_is_fresh : forall conv lut h s,
+  reach conv lut h s -> clear s = with_settings_of s init_state.
+Proof. exact clear_is_fresh. Qed.
+Print Assumptions C13_clear_is_fresh.
+
+(* hence, for every continuation, a cleared parser behaves like a fresh one with those settings *)
+Theorem C13_same_future : forall conv lut h s ops, reach conv lut h s ->
+  run_from conv lut (clear s) ops = run_from conv lut (with_settings_of s init_state) ops.
+Proof. exact clear_same_future. Qed.
+Print Assumptions C13_same_future.
+
+(* every getter reports unknown / empty right after clear, the ten settings are those of s *)
+Theorem C13_snapshot : forall conv lut h s, reach conv lut h s ->
+  snap_of (clear s) = mksnap (-1) (-1) (-1) (-1) (-1) (-1) 0 af_empty
+                             (tsnap_of (string_init 8)) (tsnap_of (string_init 64))
+                             (tsnap_of (string_init 64)) (tsnap_of (string_init 8)) (cfg_of s).
+Proof. intros conv lut h s H. rewrite (clear_is_fresh conv lut h s H). reflexivity. Qed.
+Print Assumptions C13_snapshot.
+
 Example C13_scenario : check_run_u (observer_u 13) scenario = true.
 Proof. vm_compute. reflexivity. Qed.
-Print Assumptions C13_scenario.
+Example C13_nontrivial :
+  let s := run_u (firstn 22 scenario) in
+  sn_pi (snap_of s) = 12801 /\ sn_pi (snap_of (clear s)) = -1 /\ cfg_of (clear s) = cfg_of s
+  /\ ts_avail (sn_ps (snap_of s)) = true.
+Proof. vm_compute. repeat split. Qed.
